@@ -431,19 +431,31 @@ class C18Collection(_Base):
     bounds_doc = "HistogramCollection construction / add with members of different binnings: refused, collection and members unchanged"
 
     def instances(self, tier):
-        for op in ("init_diff", "add_diff", "add_same", "init_empty", "empty_binning_add_diff", "empty_binning_add_same", "create_ok", "create_bad_weights"):
+        for op in ("init_diff", "add_diff", "add_same", "init_empty", "empty_binning_add_diff", "empty_binning_add_same", "create_ok", "create_bad_weights", "create_adaptive_grow"):
             yield f"col-{op}", dict(op=op)
 
     def declare(self, cx, p):
         x = {"f": declare_cells(cx, "f", [2], "int"), "g": declare_cells(cx, "g", [2], "int"), "e": declare_edges(cx, "e", 2)}
         if cx.sym:
             cx.assume(*[z3.And(cx.t(t) >= -100, cx.t(t) <= 100) for t in x["e"]])
+        if p["op"] == "create_adaptive_grow":
+            x["v"] = cx.pyfloat("v")
+            if cx.sym:
+                cx.assume(x["v"] >= -3, x["v"] < 6)
         return x
 
     def drive(self, E, p, x):
         np = E.np
         H1 = E.mod("physt.histogram1d").Histogram1D
         HC = E.mod("physt.histogram_collection").HistogramCollection
+        if p["op"] == "create_adaptive_grow":
+            # a collection over an ADAPTIVE binning: a second member whose data make the bins grow - the first member stays well-formed
+            FWB = E.mod("physt.binnings").FixedWidthBinning
+            col = HC(binning=FWB(bin_width=1.0, adaptive=True))
+            first = col.create("first", [0.5, 1.5])
+            r = E.attempt(col.create, "second", [x["v"]])
+            return {"outcome": r.name if isinstance(r, Raised) else "ok", "a": full(E, first), "n": len(col),
+                    "second": None if isinstance(r, Raised) else full(E, r)}
         a = H1(np.asarray(x["e"]), np.asarray(x["f"], dtype=int), name="a")
         b_same = H1(a.binning, np.asarray(x["g"], dtype=int), name="b")
         b_diff = H1(np.asarray([1000.0, 1001.0, 1002.0]), np.asarray(x["g"], dtype=int), name="c")
@@ -475,6 +487,15 @@ class C18Collection(_Base):
         if obs.get("raised") is not None:
             return
         op = p["op"]
+        if op == "create_adaptive_grow":
+            yield "accepted", obs["outcome"] == "ok" and obs["n"] == 2
+            a = obs["a"]
+            yield "earlier_member_wellformed", a["fshape"] == a["eshape"] == [len(a["bins"][0])]
+            yield "earlier_member_keeps_its_data", zsum(cx.t(v) for v in a["freq"]) == 2
+            if obs["second"] is not None:
+                b = obs["second"]
+                yield "new_member_wellformed", b["fshape"] == b["eshape"] == [len(b["bins"][0])] and zsum(cx.t(v) for v in b["freq"]) == 1
+            return
         if op in ("init_diff", "init_empty", "add_diff", "empty_binning_add_diff"):
             yield "refused", obs["outcome"] == "ValueError"
             if op == "add_diff":
